@@ -115,7 +115,7 @@ def lean_sources():
 
 # further modules whose theorems belong to a property's obligations
 EXTRA_MODULES = {
-    "C14": ["CodeLimit.Props.C14b"],
+    "C14": ["CodeLimit.Props.C14b", "CodeLimit.Props.C14nest"],
     "C01": ["CodeLimit.Lemmas.GenTie", "CodeLimit.Props.C01disc", "CodeLimit.Props.C01py", "CodeLimit.Props.C01syn",
             "CodeLimit.Props.C01tree", "CodeLimit.Props.C01pyfull", "CodeLimit.Props.C01text", "CodeLimit.Props.C01full",
             "CodeLimit.Props.C01arrow", "CodeLimit.Props.C01marks", "CodeLimit.Props.C01pytext", "CodeLimit.Props.C01marktext"],
